@@ -334,6 +334,14 @@ func genReuse(prop string, seed uint64, run int) *Scenario {
 		sc.Tasks = []TaskScript{{Name: "world0", Role: "world", Ops: w}, {Name: "closer0", Role: "client", Ops: cl}, {Name: "maker", Role: "client", Ops: mk}}
 	}
 	sc.Tasks = append(sc.Tasks, TaskScript{Name: "world1", Role: "world", Ops: []Op{{K: OpYield}, {K: OpYield}, {K: OpCreate, P: "d1/late"}, {K: OpCreate, P: "out/late"}}})
+	if g.chance(0.6) {
+		// API calls on the Watcher that is being closed, overlapping the Close
+		var ops []Op
+		for k := 1 + g.r.Intn(3); k > 0; k-- {
+			ops = append(ops, []Op{{K: OpRemove, W: 0, P: "d0"}, {K: OpAdd, W: 0, P: "d1"}, {K: OpRemove, W: 0, P: "d0/g"}, {K: OpAdd, W: 0, P: "out"}, {K: OpYield}}[g.r.Intn(5)])
+		}
+		sc.Tasks = append(sc.Tasks, TaskScript{Name: "client9", Role: "client", Ops: ops})
+	}
 	return sc
 }
 
